@@ -12,18 +12,82 @@ def toksFloat (r : Text) : List Tok :=
   | '-' :: t => [.minus, .float t]
   | t => [.float t]
 
+/-! ## Signed float texts -/
+
+theorem neg_text (t : Text) (h : isNegText t = true) : ∃ u, t = '-' :: u := by
+  match t, h with
+  | [], h => simp [isNegText] at h
+  | c :: u, h =>
+    by_cases hc : c = '-'
+    · subst hc; exact ⟨u, rfl⟩
+    · rw [isNegText.eq_2 _ (by intro t' ht; injection ht with h1 _; exact hc h1)] at h
+      cases h
+
+theorem pos_text (t : Text) (h : isNegText t = false) :
+    unsignedRepr t = t ∧ toksFloat t = [.float t] ∧ floatData t = .float false (decValue t) := by
+  match t, h with
+  | [], _ => simp [unsignedRepr, toksFloat, floatData]
+  | c :: u, h =>
+    have hc : c ≠ '-' := by intro hc; subst hc; simp [isNegText] at h
+    have hne : ∀ t', c :: u = '-' :: t' → False := by intro t' ht; injection ht with h1 _; exact hc h1
+    exact ⟨unsignedRepr.eq_2 _ hne, toksFloat.eq_2 _ hne, floatData.eq_2 _ hne⟩
+
+theorem head_isNegText (t : Text) : (t.head? == some '-') = isNegText t := by
+  match t with
+  | [] => rfl
+  | c :: u =>
+    by_cases hc : c = '-'
+    · subst hc; rfl
+    · rw [isNegText.eq_2 _ (by intro t' ht; injection ht with h1 _; exact hc h1)]
+      simp [hc]
+
+theorem isNegLiteral_float (r : Text) : isNegLiteral (.float r) = isNegText (floatLiteral r) := by
+  simp only [isNegLiteral]; exact head_isNegText _
+
+/-- What `floatLitOk` gives when the literal is negative: literal and repr are `-u`, `-v` with `u`, `v`
+    denoting the same number. -/
+theorem litOk_neg (r : Text) (h : floatLitOk r = true) (hneg : isNegText (floatLiteral r) = true) :
+    ∃ u v, floatLiteral r = '-' :: u ∧ r = '-' :: v ∧ decValue u = decValue v ∧ isNixFloat u = true := by
+  simp only [floatLitOk, Bool.and_eq_true, beq_iff_eq, decide_eq_true_eq] at h
+  obtain ⟨⟨h1, h2⟩, h3⟩ := h
+  obtain ⟨u, hu⟩ := neg_text _ hneg
+  obtain ⟨v, hv⟩ := neg_text r (by rw [← h2]; exact hneg)
+  refine ⟨u, v, hu, hv, ?_, ?_⟩
+  · rw [hu] at h3; rw [hv] at h3; simpa [unsignedRepr] using h3
+  · rw [hu] at h1; simpa [unsignedRepr] using h1
+
+/-- What `floatLitOk` gives when the literal is not negative. -/
+theorem litOk_pos (r : Text) (h : floatLitOk r = true) (hneg : isNegText (floatLiteral r) = false) :
+    toksFloat (floatLiteral r) = [.float (floatLiteral r)] ∧
+    floatData r = .float false (decValue (floatLiteral r)) ∧ isNixFloat (floatLiteral r) = true := by
+  simp only [floatLitOk, Bool.and_eq_true, beq_iff_eq, decide_eq_true_eq] at h
+  obtain ⟨⟨h1, h2⟩, h3⟩ := h
+  have hr : isNegText r = false := by rw [← h2]; exact hneg
+  obtain ⟨a1, a2, _⟩ := pos_text _ hneg
+  obtain ⟨b1, _, b3⟩ := pos_text _ hr
+  rw [a1] at h1 h3; rw [b1] at h3
+  exact ⟨a2, by rw [b3, h3], h1⟩
+
 mutual
 def toksE : Elem → List Tok
   | .none => [.ident dNull]
   | .bool b => [.ident (if b then dTrue else dFalse)]
   | .int i => toksInt i
-  | .float r => toksFloat r
+  | .float r => toksFloat (floatLiteral r)
   | .str s => [.str s]
   | .list xs => .lbrack :: (toksEs xs ++ [.rbrack])
+/-- list items: a negative number literal stands in parentheses -/
 def toksEs : List Elem → List Tok
   | [] => []
-  | x :: xs => toksE x ++ toksEs xs
+  | x :: xs => (if isNegLiteral x then .lparen :: (toksE x ++ [.rparen]) else toksE x) ++ toksEs xs
 end
+
+/-- the tokens of one list item -/
+def toksItem (x : Elem) : List Tok :=
+  if isNegLiteral x then .lparen :: (toksE x ++ [.rparen]) else toksE x
+
+theorem toksEs_cons (x : Elem) (xs : List Elem) : toksEs (x :: xs) = toksItem x ++ toksEs xs := by
+  simp [toksEs, toksItem]
 
 mutual
 def toksX : Expr → List Tok
@@ -44,46 +108,77 @@ theorem toksE_length_pos : ∀ e : Elem, 0 < (toksE e).length
   | .str _ => by simp [toksE]
   | .list _ => by simp [toksE]
 
+theorem toksItem_length_pos (x : Elem) : 0 < (toksItem x).length := by
+  unfold toksItem; split
+  · simp
+  · exact toksE_length_pos x
+
+theorem toksItem_ne_rbrack (x : Elem) (rest r : List Tok) : toksItem x ++ rest ≠ Tok.rbrack :: r := by
+  unfold toksItem; split
+  · simp
+  · cases x <;> simp [toksE, toksInt, toksFloat] <;> (try split) <;> simp
+
+/-- A negative number literal, in binding position or inside parentheses. -/
+theorem pValue_neg (e : Elem) (n : Nat) (rest : List Tok) (h : elemReadable e = true)
+    (hneg : isNegLiteral e = true) :
+    pValue (n + 1) (toksE e ++ rest) = some (denoteE e, rest) := by
+  cases e with
+  | int i =>
+    have hi : i < 0 := by simpa [isNegLiteral] using hneg
+    simp only [toksE, toksInt, hi, if_true, List.cons_append, List.nil_append, pValue, denoteE]
+    congr 3
+    omega
+  | float r =>
+    rw [isNegLiteral_float] at hneg
+    obtain ⟨u, v, hu, hv, hval, _⟩ := litOk_neg r (by simpa [elemReadable] using h) hneg
+    simp only [toksE, denoteE, hu]
+    subst hv
+    simp [toksFloat, pValue, floatData, hval]
+  | none => simp [isNegLiteral] at hneg
+  | bool _ => simp [isNegLiteral] at hneg
+  | str _ => simp [isNegLiteral] at hneg
+  | list _ => simp [isNegLiteral] at hneg
+
+/-- A parenthesised negative number literal is a list element. -/
+theorem pElem_paren_neg (e : Elem) (n : Nat) (rest : List Tok) (h : elemReadable e = true)
+    (hneg : isNegLiteral e = true) :
+    pElem (n + 2) (.lparen :: (toksE e ++ [.rparen]) ++ rest) = some (denoteE e, rest) := by
+  have := pValue_neg e n (.rparen :: rest) h hneg
+  simp only [List.cons_append, List.append_assoc, List.nil_append, pElem]
+  rw [this]; rfl
+
 mutual
-theorem pElem_toksE : ∀ (e : Elem) (n : Nat) (rest : List Tok), elemReadable true e = true →
+theorem pElem_toksE : ∀ (e : Elem) (n : Nat) (rest : List Tok), elemReadable e = true →
+    isNegLiteral e = false →
     (toksE e).length ≤ n → pElem n (toksE e ++ rest) = some (denoteE e, rest)
-  | .none, n, rest, _, hn => by
+  | .none, n, rest, _, _, hn => by
     cases n with
     | zero => simp [toksE] at hn
     | succ n => simp [toksE, pElem, denoteE, dNull, dTrue, dFalse]
-  | .bool b, n, rest, _, hn => by
+  | .bool b, n, rest, _, _, hn => by
     cases n with
     | zero => simp [toksE] at hn
     | succ n => cases b <;> simp [toksE, pElem, denoteE, dTrue, dFalse]
-  | .int i, n, rest, h, hn => by
+  | .int i, n, rest, _, hneg, hn => by
     cases n with
     | zero => have := toksE_length_pos (.int i); omega
     | succ n =>
-      simp only [elemReadable, Bool.true_and, Bool.and_eq_true, Bool.not_eq_true', decide_eq_false_iff_not,
-        decide_eq_true_eq] at h
-      have hi : ¬ i < 0 := h.2
+      have hi : ¬ i < 0 := by simpa [isNegLiteral] using hneg
       simp only [toksE, toksInt, hi, if_false, List.cons_append, List.nil_append, pElem, denoteE]
       congr 3
       omega
-  | .float r, n, rest, h, hn => by
+  | .float r, n, rest, h, hneg, hn => by
     cases n with
     | zero => have := toksE_length_pos (.float r); omega
     | succ n =>
-      simp only [elemReadable, Bool.true_and, Bool.and_eq_true, Bool.not_eq_true'] at h
-      have hneg := h.2
-      match r, hneg with
-      | '-' :: t, hneg => simp [isNegRepr] at hneg
-      | [], _ => simp [toksE, toksFloat, pElem, denoteE, floatData]
-      | c :: t, hneg =>
-        have hc : c ≠ '-' := by intro hc; subst hc; simp [isNegRepr] at hneg
-        rw [toksE, toksFloat.eq_2 _ (by intro t' ht; injection ht with h1 _; exact hc h1)]
-        rw [denoteE, floatData.eq_2 _ (by intro t' ht; injection ht with h1 _; exact hc h1)]
-        simp [pElem]
-  | .str s, n, rest, _, hn => by
+      rw [isNegLiteral_float] at hneg
+      obtain ⟨ht, hd, _⟩ := litOk_pos r (by simpa [elemReadable] using h) hneg
+      simp [toksE, denoteE, ht, hd, pElem]
+  | .str s, n, rest, _, _, hn => by
     cases n with
     | zero => simp [toksE] at hn
     | succ n => simp [toksE, pElem, denoteE]
-  | .list xs, n, rest, h, hn => by
+  | .list xs, n, rest, h, _, hn => by
     cases n with
     | zero => simp [toksE] at hn
     | succ n =>
@@ -103,74 +198,52 @@ theorem pElems_toksEs : ∀ (xs : List Elem) (n : Nat) (rest : List Tok), elemsR
     | zero => simp at hn
     | succ n =>
       simp only [elemsReadable, Bool.and_eq_true] at h
-      simp only [toksEs, List.length_append] at hn
-      have hpos := toksE_length_pos x
-      have h1 := pElem_toksE x n (toksEs xs ++ .rbrack :: rest) h.1 (by omega)
+      rw [toksEs_cons] at hn ⊢
+      simp only [List.length_append] at hn
+      have hpos := toksItem_length_pos x
       have h2 := pElems_toksEs xs n rest h.2 (by omega)
-      have hne : ∀ r, toksE x ++ (toksEs xs ++ Tok.rbrack :: rest) ≠ Tok.rbrack :: r := by
-        intro r
-        cases x <;> simp [toksE, toksInt, toksFloat] <;> (try split) <;> simp
-      simp only [toksEs, List.append_assoc, denoteEs]
+      have h1 : pElem n (toksItem x ++ (toksEs xs ++ .rbrack :: rest)) =
+          some (denoteE x, toksEs xs ++ .rbrack :: rest) := by
+        by_cases hneg : isNegLiteral x = true
+        · have hlen : (toksItem x).length = (toksE x).length + 2 := by simp [toksItem, hneg]
+          have hp := toksE_length_pos x
+          obtain ⟨m, rfl⟩ : ∃ m, n = m + 2 := ⟨n - 2, by omega⟩
+          simp only [toksItem, hneg, if_true]
+          exact pElem_paren_neg x m _ h.1 hneg
+        · have hneg' : isNegLiteral x = false := by simpa using hneg
+          have hlen : (toksItem x).length = (toksE x).length := by simp [toksItem, hneg']
+          simp only [toksItem, hneg', Bool.false_eq_true, if_false]
+          exact pElem_toksE x n _ h.1 hneg' (by omega)
+      simp only [List.append_assoc, denoteEs]
       rw [pElems]
       · simp [h1, h2]
-      · intro r heq; exact absurd heq (hne r)
+      · intro r heq; exact absurd heq (toksItem_ne_rbrack x _ r)
 end
 
-
-theorem elemReadable_mono : ∀ (e : Elem), elemReadable true e = true → elemReadable false e = true
-  | .none, h => h
-  | .bool _, h => h
-  | .int i, h => by simp only [elemReadable, Bool.and_eq_true] at h ⊢; simp [h.1]
-  | .float r, h => by simp only [elemReadable, Bool.and_eq_true] at h ⊢; simp [h.1]
-  | .str _, h => h
-  | .list _, h => by simpa [elemReadable] using h
-
-/-- In binding position a negative number is accepted as well. -/
-theorem pValue_toksE (e : Elem) (n : Nat) (rest : List Tok) (h : elemReadable false e = true)
+/-- In binding position (and inside parentheses) a negative number is accepted as well. -/
+theorem pValue_toksE (e : Elem) (n : Nat) (rest : List Tok) (h : elemReadable e = true)
     (hn : (toksE e).length + 1 ≤ n) : pValue n (toksE e ++ rest) = some (denoteE e, rest) := by
   cases n with
   | zero => simp at hn
   | succ n =>
-    have hpos := toksE_length_pos e
-    cases e with
-    | none => rw [pValue]; exact pElem_toksE .none n rest rfl (by omega)
-              all_goals (intros; simp [toksE] at *)
-    | bool b => rw [pValue]; exact pElem_toksE (.bool b) n rest rfl (by omega)
-                all_goals (intros; simp [toksE] at *)
-    | str s => rw [pValue]; exact pElem_toksE (.str s) n rest h (by omega)
-               all_goals (intros; simp [toksE] at *)
-    | list xs => rw [pValue]; exact pElem_toksE (.list xs) n rest h (by omega)
-                 all_goals (intros; simp [toksE] at *)
-    | int i =>
-      simp only [elemReadable, Bool.false_and, Bool.not_false, Bool.and_true, decide_eq_true_eq] at h
-      by_cases hi : i < 0
-      · simp only [toksE, toksInt, hi, if_true, List.cons_append, List.nil_append, pValue, denoteE]
-        congr 3
-        omega
-      · have hr : elemReadable true (.int i) = true := by simp [elemReadable, h, hi]
-        rw [pValue]
-        · exact pElem_toksE (.int i) n rest hr (by omega)
-        all_goals (intros; simp [toksE, toksInt, hi] at *)
-    | float r =>
-      simp only [elemReadable, Bool.false_and, Bool.not_false, Bool.and_true] at h
-      match r with
-      | '-' :: t => simp [toksE, toksFloat, pValue, denoteE, floatData]
-      | [] =>
-        have hr : elemReadable true (.float []) = true := by simpa [elemReadable, isNegRepr] using h
-        rw [pValue]
-        · exact pElem_toksE (.float []) n rest hr (by omega)
-        all_goals (intros; simp [toksE, toksFloat] at *)
-      | c :: t =>
-        by_cases hc : c = '-'
-        · subst hc; simp [toksE, toksFloat, pValue, denoteE, floatData]
-        · have hneg : isNegRepr (c :: t) = false := by
-            rw [isNegRepr.eq_2 _ (by intro t' ht; injection ht with h1 _; exact hc h1)]
-          have hr : elemReadable true (.float (c :: t)) = true := by simp [elemReadable, h, hneg]
-          have htk : toksE (.float (c :: t)) = [.float (c :: t)] := by
-            rw [toksE, toksFloat.eq_2 _ (by intro t' ht; injection ht with h1 _; exact hc h1)]
-          rw [pValue]
-          · exact pElem_toksE (.float (c :: t)) n rest hr (by omega)
-          all_goals (intros; simp [htk] at *)
+    by_cases hneg : isNegLiteral e = true
+    · exact pValue_neg e n rest h hneg
+    · have hneg' : isNegLiteral e = false := by simpa using hneg
+      have hpos := toksE_length_pos e
+      have hp := pElem_toksE e n rest h hneg' (by omega)
+      rw [pValue]
+      · exact hp
+      all_goals
+        intros
+        cases e with
+        | int i =>
+          have hi : ¬ i < 0 := by simpa [isNegLiteral] using hneg'
+          simp [toksE, toksInt, hi] at *
+        | float r =>
+          rw [isNegLiteral_float] at hneg'
+          have ht := (litOk_pos r (by simpa [elemReadable] using h) hneg').1
+          simp [toksE, ht] at *
+        | _ => simp [toksE] at *
 
 theorem denoteBs_keys : ∀ bs : List (Text × Expr), (denoteBs bs).map (·.1) = bs.map (·.1)
   | [] => by simp [denoteBs]
@@ -270,37 +343,50 @@ theorem lex_scalar_float (r : Text) (rest : Text) (h : isNixFloat (unsignedRepr 
 theorem litEnd_ws (c : Char) (s : Text) (h : isWs c = true) : litEnd (c :: s) = true := by
   simp [litEnd, h]
 
-theorem toksEs_cons (x : Elem) (xs : List Elem) : toksEs (x :: xs) = toksE x ++ toksEs xs := by
-  simp [toksEs]
+/-- one list item, given how the item itself lexes: a negative number literal stands in parentheses -/
+theorem lex_item (x : Elem) (i : Nat) (inl : Bool) (rest : Text) (he : litEnd rest = true)
+    (hx : ∀ (inl' : Bool) (rest' : Text), litEnd rest' = true →
+      lexData (renderElem x i inl' ++ rest') = (lexData rest').map (toksE x ++ ·)) :
+    lexData ((if isNegLiteral x = true then parenText (renderElem x i true) i inl else renderElem x i inl) ++ rest) =
+      (lexData rest).map (toksItem x ++ ·) := by
+  unfold toksItem
+  by_cases hneg : isNegLiteral x = true
+  · simp only [hneg, if_true, parenText]
+    rw [lex_addTrivia]
+    simp only [List.cons_append, List.append_assoc, List.nil_append]
+    rw [lexData_lparen, hx true _ (by simp [litEnd]), lexData_rparen]
+    cases lexData rest <;> simp
+  · simp only [hneg, Bool.false_eq_true, if_false]
+    exact hx inl rest he
 
 mutual
-theorem lex_renderElem : ∀ (e : Elem) (b : Bool) (i : Nat) (inl : Bool) (rest : Text),
-    elemReadable b e = true → litEnd rest = true →
+theorem lex_renderElem : ∀ (e : Elem) (i : Nat) (inl : Bool) (rest : Text),
+    elemReadable e = true → litEnd rest = true →
     lexData (renderElem e i inl ++ rest) = (lexData rest).map (toksE e ++ ·)
-  | .none, b, i, inl, rest, _, he => by
+  | .none, i, inl, rest, _, he => by
     rw [renderElem, lex_addTrivia, litNull, lexData_ident _ _ (by decide) (litEnd_identEnd _ he)]
     rfl
-  | .bool v, b, i, inl, rest, _, he => by
+  | .bool v, i, inl, rest, _, he => by
     rw [renderElem, lex_addTrivia]
     cases v
     · simp only [Bool.false_eq_true, if_false, litFalse]
       rw [lexData_ident _ _ (by decide) (litEnd_identEnd _ he)]; rfl
     · simp only [if_true, litTrue]
       rw [lexData_ident _ _ (by decide) (litEnd_identEnd _ he)]; rfl
-  | .int n, b, i, inl, rest, h, he => by
-    simp only [elemReadable, Bool.and_eq_true, decide_eq_true_eq] at h
-    rw [renderElem, lex_addTrivia, lex_scalar_int _ _ h.1 he]; rfl
-  | .float r, b, i, inl, rest, h, he => by
-    simp only [elemReadable, Bool.and_eq_true] at h
-    rw [renderElem, lex_addTrivia, lex_scalar_float _ _ h.1 he]; rfl
-  | .str s, b, i, inl, rest, h, he => by
+  | .int n, i, inl, rest, h, he => by
+    simp only [elemReadable, decide_eq_true_eq] at h
+    rw [renderElem, lex_addTrivia, lex_scalar_int _ _ h he]; rfl
+  | .float r, i, inl, rest, h, he => by
+    simp only [elemReadable, floatLitOk, Bool.and_eq_true] at h
+    rw [renderElem, lex_addTrivia, lex_scalar_float _ _ h.1.1 he]; rfl
+  | .str s, i, inl, rest, h, he => by
     simp only [elemReadable, Bool.not_eq_true'] at h
     rw [renderElem, lex_addTrivia]
     simp only [stringQuotes, stringEscapesInterpolation, List.cons_append, List.nil_append, List.append_assoc]
     have := lexData_str s rest h he
     simp only [List.cons_append] at this
     rw [this]; rfl
-  | .list xs, b, i, inl, rest, h, he => by
+  | .list xs, i, inl, rest, h, he => by
     simp only [elemReadable] at h
     match xs, h with
     | [], _ =>
@@ -345,15 +431,18 @@ theorem lex_renderItems : ∀ (xs : List Elem) (i : Nat) (inl : Bool) (sep : Cha
   | [], _, _, _, _, _, hne, _, _ => absurd rfl hne
   | [x], i, inl, sep, tail, h, _, _, ht => by
     simp only [elemsReadable, Bool.and_eq_true] at h
+    rw [toksEs_cons]
     simp only [renderItems, joinWith, toksEs, List.append_nil]
-    exact lex_renderElem x true i inl tail h.1 ht
+    exact lex_item x i inl tail ht (fun inl' rest' hr => lex_renderElem x i inl' rest' h.1 hr)
   | x :: y :: r, i, inl, sep, tail, h, _, hs, ht => by
     simp only [elemsReadable, Bool.and_eq_true] at h
     have hyr : elemsReadable (y :: r) = true := by simp [elemsReadable, h.2]
     have ih := lex_renderItems (y :: r) i inl sep tail hyr (by simp) hs ht
+    rw [toksEs_cons]
     simp only [renderItems, joinWith, List.append_assoc, List.cons_append, List.nil_append] at ih ⊢
-    rw [lex_renderElem x true i inl _ h.1 (litEnd_ws sep _ hs), lexData_ws _ _ hs, ih]
-    cases lexData tail <;> simp [toksEs]
+    rw [lex_item x i inl _ (litEnd_ws sep _ hs) (fun inl' rest' hr => lex_renderElem x i inl' rest' h.1 hr),
+      lexData_ws _ _ hs, ih]
+    cases lexData tail <;> simp
 end
 
 /-! ## Rendered values never end with a newline (so `Binding.rebuild`'s `rstrip("\n")` is idle) -/
@@ -408,7 +497,7 @@ theorem lastOK_listText (m : Bool) (items : List Text) (i : Nat) (inl : Bool) : 
     exact ⟨(if inl = true then [] else spaces i) ++ '[' :: '\n' :: joinWith ['\n'] items ++
       (if endsNl (joinWith ['\n'] items) = true then [] else ['\n']) ++ spaces i, ']', by simp, by decide⟩
 
-theorem lastOK_renderElem (e : Elem) (b : Bool) (i : Nat) (inl : Bool) (h : elemReadable b e = true) :
+theorem lastOK_renderElem (e : Elem) (i : Nat) (inl : Bool) (h : elemReadable e = true) :
     LastOK (renderElem e i inl) := by
   cases e with
   | none => rw [renderElem]; exact LastOK.prepend _ ⟨['n', 'u', 'l'], 'l', rfl, by decide⟩
@@ -419,8 +508,8 @@ theorem lastOK_renderElem (e : Elem) (b : Bool) (i : Nat) (inl : Bool) (h : elem
     · exact LastOK.prepend _ ⟨['t', 'r', 'u'], 'e', rfl, by decide⟩
   | int n => rw [renderElem]; exact LastOK.prepend _ (lastOK_pyIntStr n)
   | float r =>
-    simp only [elemReadable, Bool.and_eq_true] at h
-    rw [renderElem]; exact LastOK.prepend _ (lastOK_float r h.1)
+    simp only [elemReadable, floatLitOk, Bool.and_eq_true] at h
+    rw [renderElem]; exact LastOK.prepend _ (lastOK_float _ h.1.1)
   | str s =>
     rw [renderElem]
     exact LastOK.prepend _ ⟨'"' :: escapeNix false s, '"', by simp [stringQuotes, stringEscapesInterpolation], by decide⟩
@@ -434,7 +523,7 @@ theorem lastOK_renderElem (e : Elem) (b : Bool) (i : Nat) (inl : Bool) (h : elem
 theorem lastOK_renderExpr (x : Expr) (i : Nat) (inl : Bool) (h : exprReadable x = true) :
     LastOK (renderExpr x i inl) := by
   cases x with
-  | raw e => rw [renderExpr]; exact lastOK_renderElem e false i inl (by simpa [exprReadable] using h)
+  | raw e => rw [renderExpr]; exact lastOK_renderElem e i inl (by simpa [exprReadable] using h)
   | aset bs ml =>
     rw [renderExpr]
     split
@@ -532,7 +621,7 @@ theorem lex_renderExpr : ∀ (x : Expr) (i : Nat) (inl : Bool) (rest : Text),
   | .raw e, i, inl, rest, h, he => by
     simp only [exprReadable] at h
     simp only [renderExpr, toksX]
-    exact lex_renderElem e false i inl rest h he
+    exact lex_renderElem e i inl rest h he
   | .aset [] ml, i, inl, rest, _, he => by
     simp only [renderExpr, List.isEmpty_nil, if_true]
     rw [lex_addTrivia]
@@ -748,7 +837,7 @@ theorem isPyExp_isExpPart (ex : Text) (h : isPyExp ex = true) :
     the reprs the code mis-renders are those with an exponent and no fraction (`1e+16`, `1e-07`). -/
 theorem pyFloatRepr_nixFloat_iff_dot (r : Text) (h : isPyFloatRepr r = true) :
     isNixFloat (unsignedRepr r) = (unsignedRepr r).contains '.' := by
-  unfold isPyFloatRepr at h
+  unfold isPyFloatRepr isPyFloatBody at h
   simp only at h
   generalize unsignedRepr r = u at h ⊢
   have hsplit : u = u.takeWhile isAsciiDigit ++ u.dropWhile isAsciiDigit :=
@@ -799,73 +888,334 @@ theorem pyFloatRepr_nixFloat_iff_dot (r : Text) (h : isPyFloatRepr r = true) :
     rfl
   · cases hm
 
-/-! ## For values of the domain, the side condition is exactly "avoids the three defects" -/
+/-! ## The literal a Python repr is spelled with is a Nix float token of the same value -/
+
+theorem decNormF_fuel (m : Nat) : 0 < m → ∀ (f : Nat) (e : Int), m ≤ f → decNormF f m e = decNormF m m e := by
+  induction m using Nat.strongRecOn with
+  | ind m ih =>
+    intro hm f e hf
+    obtain ⟨f', rfl⟩ : ∃ f', f = f' + 1 := ⟨f - 1, by omega⟩
+    obtain ⟨m', hm'⟩ : ∃ m', m = m' + 1 := ⟨m - 1, by omega⟩
+    by_cases h10 : m % 10 = 0
+    · have hlt : m / 10 < m := by omega
+      have hpos : 0 < m / 10 := by omega
+      have e1 : decNormF (f' + 1) m e = decNormF f' (m / 10) (e + 1) := by simp [decNormF, h10]
+      have e2 : decNormF m m e = decNormF m' (m / 10) (e + 1) := by
+        conv => lhs; arg 1; rw [hm']
+        simp [decNormF, h10]
+      rw [e1, e2, ih _ hlt hpos f' _ (by omega), ih _ hlt hpos m' _ (by omega)]
+    · have e1 : decNormF (f' + 1) m e = ⟨m, e⟩ := by simp [decNormF, h10]
+      have e2 : decNormF m m e = ⟨m, e⟩ := by
+        conv => lhs; arg 1; rw [hm']
+        simp [decNormF, h10]
+      rw [e1, e2]
+
+/-- `(10·m) × 10^(e-1)` and `m × 10^e` have the same normal form. -/
+theorem decNorm_times_ten (m : Nat) (e : Int) : decNorm (10 * m) (e - 1) = decNorm m e := by
+  unfold decNorm
+  by_cases hm : m = 0
+  · subst hm; simp
+  · have h10 : 10 * m ≠ 0 := by omega
+    simp only [h10, hm, if_false]
+    obtain ⟨k, hk⟩ : ∃ k, 10 * m = k + 1 := ⟨10 * m - 1, by omega⟩
+    have e1 : decNormF (10 * m) (10 * m) (e - 1) = decNormF k m e := by
+      conv => lhs; arg 1; rw [hk]
+      have hmod : 10 * m % 10 = 0 := by omega
+      have hdiv : 10 * m / 10 = m := by omega
+      simp [decNormF, hmod, hdiv]
+    rw [e1, decNormF_fuel m (by omega) k e (by omega)]
+
+theorem floatLiteral_dot (u : Text) (h : u.contains '.' = true) : floatLiteral u = u := by
+  simp only [floatLiteral, floatLiteralRule, h, if_true]
+
+theorem floatLiteral_nodot (u : Text) (h : u.contains '.' = false) :
+    floatLiteral u = u.takeWhile (· != 'e') ++ ('.' :: '0' :: u.dropWhile (· != 'e')) := by
+  simp only [floatLiteral, floatLiteralRule, h, Bool.false_eq_true, if_false, List.cons_append, List.nil_append]
+
+theorem isAsciiDigit_ne (d c : Char) (hd : isAsciiDigit d = true) (hc : isAsciiDigit c = false) : d ≠ c := by
+  intro h; subst h; rw [hd] at hc; cases hc
+
+/-- The unsigned part of a Python repr: its literal is a Nix float token, not negative, of the same value. -/
+theorem pyFloatBody_lit (u : Text) (h : isPyFloatBody u = true) :
+    isNixFloat (floatLiteral u) = true ∧ isNegText (floatLiteral u) = false ∧ isNegText u = false ∧
+    decValue (floatLiteral u) = decValue u := by
+  have hrepr : isPyFloatRepr u = true ∧ unsignedRepr u = u ∧ isNegText u = false := by
+    -- the first character of `u` is a digit
+    have h' := h
+    unfold isPyFloatBody at h'
+    simp only [Bool.and_eq_true] at h'
+    have hne := h'.1.1
+    match u, hne with
+    | [], hne => simp at hne
+    | c :: cs, hne =>
+      have hc : c ≠ '-' := by
+        intro hc; subst hc; simp [List.takeWhile, isAsciiDigit] at hne
+      have hnot : ∀ t', c :: cs = '-' :: t' → False := by intro t' ht; injection ht with h1 _; exact hc h1
+      have hu := unsignedRepr.eq_2 _ hnot
+      exact ⟨by rw [isPyFloatRepr, hu]; exact h, hu, isNegText.eq_2 _ hnot⟩
+  obtain ⟨hr, hu, hneg⟩ := hrepr
+  have hdot := pyFloatRepr_nixFloat_iff_dot u hr
+  rw [hu] at hdot
+  by_cases hc : u.contains '.' = true
+  · have hl : floatLiteral u = u := floatLiteral_dot u hc
+    rw [hl]
+    exact ⟨by rw [hdot]; exact hc, hneg, hneg, rfl⟩
+  · -- no `.`: `u = d :: 'e' :: ex` with a single non-zero digit `d`
+    have hc' : u.contains '.' = false := by simpa using hc
+    unfold isPyFloatBody at h
+    simp only [Bool.and_eq_true] at h
+    obtain ⟨⟨hne, _⟩, hm⟩ := h
+    have hsplit : u = u.takeWhile isAsciiDigit ++ u.dropWhile isAsciiDigit :=
+      (List.takeWhile_append_dropWhile).symm
+    split at hm
+    · rename_i r2 hdr
+      exfalso
+      have : u.contains '.' = true := by rw [hsplit, hdr]; simp
+      rw [this] at hc'; cases hc'
+    · rename_i ex hdr
+      simp only [Bool.and_eq_true, beq_iff_eq, bne_iff_ne, ne_eq] at hm
+      obtain ⟨⟨hexp, hlen⟩, hnz⟩ := hm
+      match hip : u.takeWhile isAsciiDigit, hlen with
+      | [d], _ =>
+        have hd : isAsciiDigit d = true := mem_takeWhile_imp' _ _ (by rw [hip]; simp)
+        have hd0 : d ≠ '0' := by intro h0; subst h0; exact hnz hip
+        have hue : u = d :: 'e' :: ex := by rw [hsplit, hip, hdr]; rfl
+        have hexpP := (isPyExp_isExpPart _ hexp).1
+        have hde : d ≠ 'e' := isAsciiDigit_ne d 'e' hd (by decide)
+        have hdd : d ≠ '.' := isAsciiDigit_ne d '.' hd (by decide)
+        have hl : floatLiteral u = d :: '.' :: '0' :: 'e' :: ex := by
+          have hcu : (d :: 'e' :: ex).contains '.' = false := by rw [← hue]; exact hc'
+          rw [hue, floatLiteral_nodot _ hcu]
+          rw [List.takeWhile_cons_of_pos (by simp [hde]), List.takeWhile_cons_of_neg (by simp),
+            List.dropWhile_cons_of_pos (by simp [hde]), List.dropWhile_cons_of_neg (by simp)]
+          rfl
+        have hdw : ∀ tl : Text, (d :: tl).takeWhile isAsciiDigit = d :: tl.takeWhile isAsciiDigit :=
+          fun tl => List.takeWhile_cons_of_pos hd
+        have hdd' : ∀ tl : Text, (d :: tl).dropWhile isAsciiDigit = tl.dropWhile isAsciiDigit :=
+          fun tl => List.dropWhile_cons_of_pos hd
+        have e1 : ('.' :: '0' :: 'e' :: ex).takeWhile isAsciiDigit = [] :=
+          List.takeWhile_cons_of_neg (by decide)
+        have e2 : ('.' :: '0' :: 'e' :: ex).dropWhile isAsciiDigit = '.' :: '0' :: 'e' :: ex :=
+          List.dropWhile_cons_of_neg (by decide)
+        have e3 : ('0' :: 'e' :: ex).takeWhile isAsciiDigit = ['0'] := by
+          rw [List.takeWhile_cons_of_pos (by decide), List.takeWhile_cons_of_neg (by decide)]
+        have e4 : ('0' :: 'e' :: ex).dropWhile isAsciiDigit = 'e' :: ex := by
+          rw [List.dropWhile_cons_of_pos (by decide), List.dropWhile_cons_of_neg (by decide)]
+        have e5 : ('e' :: ex).takeWhile isAsciiDigit = [] := List.takeWhile_cons_of_neg (by decide)
+        have e6 : ('e' :: ex).dropWhile isAsciiDigit = 'e' :: ex := List.dropWhile_cons_of_neg (by decide)
+        refine ⟨?_, ?_, hneg, ?_⟩
+        · rw [hl]
+          unfold isNixFloat
+          simp only [hdw, hdd']
+          simp only [e1, e2, e3, e4, hexpP, Bool.true_and]
+          simp [hd0]
+        · rw [hl]
+          exact isNegText.eq_2 _ (by
+            intro t' ht; injection ht with h1 _
+            exact (isAsciiDigit_ne d '-' hd (by decide)) h1)
+        · rw [hl, hue]
+          unfold decValue
+          simp only [hdw, hdd']
+          simp only [e1, e2, e3, e4, e5, e6]
+          have hval : Nat.ofDigitChars 10 ([d] ++ ['0']) 0 = 10 * Nat.ofDigitChars 10 [d] 0 := by
+            simp [Nat.ofDigitChars]
+          rw [hval]
+          exact decNorm_times_ten _ _
+      | [], hlen => simp at hlen
+      | _ :: _ :: _, hlen => simp at hlen
+    · cases hm
+
+/-- **Every repr of a finite Python float is spelled as a Nix float token of the same sign and value.** -/
+theorem pyFloatRepr_litOk (r : Text) (h : isPyFloatRepr r = true) : floatLitOk r = true := by
+  have hflneg : ∀ v : Text, floatLiteral ('-' :: v) = '-' :: floatLiteral v := by
+    intro v
+    have hc : ('-' :: v).contains '.' = v.contains '.' := by simp
+    by_cases hv : v.contains '.' = true
+    · rw [floatLiteral_dot _ (by rw [hc]; exact hv), floatLiteral_dot _ hv]
+    · have hv' : v.contains '.' = false := by simpa using hv
+      rw [floatLiteral_nodot _ (by rw [hc]; exact hv'), floatLiteral_nodot _ hv']
+      rw [List.takeWhile_cons_of_pos (by decide), List.dropWhile_cons_of_pos (by decide)]
+      rfl
+  unfold floatLitOk
+  by_cases hn : isNegText r = true
+  · obtain ⟨v, rfl⟩ := neg_text r hn
+    have hb : isPyFloatBody v = true := by simpa [isPyFloatRepr, unsignedRepr] using h
+    obtain ⟨a, _, _, d⟩ := pyFloatBody_lit v hb
+    rw [hflneg]
+    simp [unsignedRepr, isNegText, a, d]
+  · have hn' : isNegText r = false := by simpa using hn
+    obtain ⟨hu, _, _⟩ := pos_text r hn'
+    have hb : isPyFloatBody r = true := by rw [isPyFloatRepr, hu] at h; exact h
+    obtain ⟨a, b, _, d⟩ := pyFloatBody_lit r hb
+    obtain ⟨hlu, _, _⟩ := pos_text _ b
+    rw [hlu, hu]
+    simp [a, b, hn', d]
+
+/-! ## Every value of the domain satisfies the side condition -/
 
 mutual
-theorem elemReadable_eq_avoids : ∀ (e : Elem) (b : Bool), elemInDomain e = true →
-    elemReadable b e = elemAvoids b e
-  | .none, _, _ => rfl
-  | .bool _, _, _ => rfl
-  | .int _, _, _ => rfl
-  | .float r, b, h => by
+theorem elemInDomain_readable : ∀ (e : Elem), elemInDomain e = true → elemReadable e = true
+  | .none, _ => rfl
+  | .bool _, _ => rfl
+  | .int _, h => by simpa [elemInDomain, elemReadable] using h
+  | .float r, h => by
     simp only [elemInDomain] at h
-    simp only [elemReadable, elemAvoids, pyFloatRepr_nixFloat_iff_dot r h]
-  | .str s, _, h => by simpa [elemReadable, elemAvoids, elemInDomain] using h
-  | .list xs, _, h => by
+    simp only [elemReadable, pyFloatRepr_litOk r h]
+  | .str s, h => by simpa [elemReadable, elemInDomain] using h
+  | .list xs, h => by
     simp only [elemInDomain] at h
-    simp only [elemReadable, elemAvoids]
-    exact elemsReadable_eq_avoid xs h
-theorem elemsReadable_eq_avoid : ∀ (xs : List Elem), elemsInDomain xs = true →
-    elemsReadable xs = elemsAvoid xs
+    simp only [elemReadable]
+    exact elemsInDomain_readable xs h
+theorem elemsInDomain_readable : ∀ (xs : List Elem), elemsInDomain xs = true → elemsReadable xs = true
   | [], _ => rfl
   | x :: xs, h => by
     simp only [elemsInDomain, Bool.and_eq_true] at h
-    simp only [elemsReadable, elemsAvoid, elemReadable_eq_avoids x true h.1, elemsReadable_eq_avoid xs h.2]
+    simp only [elemsReadable, elemInDomain_readable x h.1, elemsInDomain_readable xs h.2, Bool.and_self]
 end
 
 mutual
-theorem valReadable_eq_avoids : ∀ (v : PyVal), valInDomain v = true → valReadable v = valAvoids v
+theorem valInDomain_readable : ∀ (v : PyVal), valInDomain v = true → valReadable v = true
   | .elem e, h => by
     simp only [valInDomain] at h
-    simp only [valReadable, valAvoids, elemReadable_eq_avoids e false h]
+    simp only [valReadable, elemInDomain_readable e h]
   | .dict kvs, h => by
     simp only [valInDomain, Bool.and_eq_true] at h
-    simp only [valReadable, valAvoids, h.1, Bool.true_and]
-    exact kvsReadable_eq_avoid kvs h.2
-theorem kvsReadable_eq_avoid : ∀ (kvs : List (Text × PyVal)), kvsInDomain kvs = true →
-    kvsReadable kvs = kvsAvoid kvs
+    simp only [valReadable, h.1, Bool.true_and]
+    exact kvsInDomain_readable kvs h.2
+theorem kvsInDomain_readable : ∀ (kvs : List (Text × PyVal)), kvsInDomain kvs = true → kvsReadable kvs = true
   | [], _ => rfl
   | (k, v) :: rest, h => by
     simp only [kvsInDomain, Bool.and_eq_true] at h
-    simp only [kvsReadable, kvsAvoid, h.1.1, Bool.true_and, valReadable_eq_avoids v h.1.2,
-      kvsReadable_eq_avoid rest h.2]
+    simp only [kvsReadable, h.1.1, valInDomain_readable v h.1.2,
+      kvsInDomain_readable rest h.2, Bool.and_self]
 end
 
-theorem ctxReadable_eq_avoids (c : Ctx) (h : ctxInDomain c = true) : ctxReadable c = ctxAvoids c := by
+theorem ctxInDomain_readable (c : Ctx) (h : ctxInDomain c = true) : ctxReadable c = true := by
   cases c with
-  | fromDict d =>
-    simp only [ctxInDomain] at h
-    have := valReadable_eq_avoids (.dict d) h
-    simpa [ctxReadable, ctxAvoids, valAvoids] using this
-  | values d =>
-    simp only [ctxInDomain] at h
-    have := valReadable_eq_avoids (.dict d) h
-    simpa [ctxReadable, ctxAvoids, valAvoids] using this
+  | fromDict d => exact valInDomain_readable (.dict d) h
+  | values d => exact valInDomain_readable (.dict d) h
   | binding k v =>
     simp only [ctxInDomain, Bool.and_eq_true] at h
-    simp [ctxReadable, ctxAvoids, h.1, valReadable_eq_avoids v h.2]
-  | list xs =>
-    simp only [ctxInDomain] at h
-    simp [ctxReadable, ctxAvoids, elemsReadable_eq_avoid xs h]
+    simp [ctxReadable, h.1, valInDomain_readable v h.2]
+  | list xs => exact elemsInDomain_readable xs h
   | setItem d k v =>
     simp only [ctxInDomain, Bool.and_eq_true] at h
-    have := valReadable_eq_avoids (.dict d) h.1.1
-    simp only [valAvoids] at this
-    simp [ctxReadable, ctxAvoids, this, h.1.2, valReadable_eq_avoids v h.2]
+    simp [ctxReadable, valInDomain_readable (.dict d) h.1.1, h.1.2, valInDomain_readable v h.2]
   | setItemOn d ml k v =>
     simp only [ctxInDomain, Bool.and_eq_true] at h
-    have := valReadable_eq_avoids (.dict d) h.1.1
-    simp only [valAvoids] at this
-    simp [ctxReadable, ctxAvoids, this, h.1.2, valReadable_eq_avoids v h.2]
+    simp [ctxReadable, valInDomain_readable (.dict d) h.1.1, h.1.2, valInDomain_readable v h.2]
+
+/-! ## Refusal: `rebuild()` raises exactly when the data holds an integer Nix cannot write -/
+
+theorem coerceIntMax_eq : coerceIntMax = nixIntMax := rfl
+
+mutual
+theorem elemRefused_eq : ∀ e : Elem, elemRefused e = dataOutOfRange (denoteE e)
+  | .none => rfl
+  | .bool _ => rfl
+  | .int i => by simp [elemRefused, intRefused, denoteE, dataOutOfRange, coerceIntMax_eq]
+  | .float r => by
+    simp only [elemRefused, denoteE, floatData]
+    split <;> rfl
+  | .str _ => rfl
+  | .list xs => by simp only [elemRefused, denoteE, dataOutOfRange, elemsRefused_eq xs]
+theorem elemsRefused_eq : ∀ xs : List Elem, elemsRefused xs = dataListOutOfRange (denoteEs xs)
+  | [] => rfl
+  | x :: xs => by simp only [elemsRefused, denoteEs, dataListOutOfRange, elemRefused_eq x, elemsRefused_eq xs]
+end
+
+mutual
+theorem exprRefused_eq : ∀ x : Expr, exprRefused x = dataOutOfRange (denoteX x)
+  | .raw e => by simp only [exprRefused, denoteX, elemRefused_eq e]
+  | .aset bs _ => by simp only [exprRefused, denoteX, dataOutOfRange, bsRefused_eq bs]
+theorem bsRefused_eq : ∀ bs : List (Text × Expr), bsRefused bs = dataKvsOutOfRange (denoteBs bs)
+  | [] => rfl
+  | (k, v) :: rest => by simp only [bsRefused, denoteBs, dataKvsOutOfRange, exprRefused_eq v, bsRefused_eq rest]
+end
+
+mutual
+theorem elemReadable_not_refused : ∀ e : Elem, elemReadable e = true → elemRefused e = false
+  | .none, _ => rfl
+  | .bool _, _ => rfl
+  | .int i, h => by
+    simp only [elemReadable, decide_eq_true_eq] at h
+    simp only [elemRefused, intRefused, coerceIntMax_eq]
+    exact decide_eq_false (by omega)
+  | .float _, _ => rfl
+  | .str _, _ => rfl
+  | .list xs, h => by
+    simp only [elemReadable] at h
+    simp only [elemRefused]
+    exact elemsReadable_not_refused xs h
+theorem elemsReadable_not_refused : ∀ xs : List Elem, elemsReadable xs = true → elemsRefused xs = false
+  | [], _ => rfl
+  | x :: xs, h => by
+    simp only [elemsReadable, Bool.and_eq_true] at h
+    simp only [elemsRefused, elemReadable_not_refused x h.1, elemsReadable_not_refused xs h.2, Bool.or_self]
+end
+
+mutual
+theorem exprReadable_not_refused : ∀ x : Expr, exprReadable x = true → exprRefused x = false
+  | .raw e, h => by
+    simp only [exprReadable] at h
+    simp only [exprRefused, elemReadable_not_refused e h]
+  | .aset bs _, h => by
+    simp only [exprReadable, Bool.and_eq_true] at h
+    simp only [exprRefused]
+    exact bsReadable_not_refused bs h.2
+theorem bsReadable_not_refused : ∀ bs : List (Text × Expr), bsReadable bs = true → bsRefused bs = false
+  | [], _ => rfl
+  | (k, v) :: rest, h => by
+    simp only [bsReadable, Bool.and_eq_true] at h
+    simp only [bsRefused, exprReadable_not_refused v h.1.2, bsReadable_not_refused rest h.2, Bool.or_self]
+end
+
+/-- item assignment denotes `d[k] = v`, whatever the values are -/
+theorem denoteX_setItem (bs : List (Text × Expr)) (ml : Bool) (k : Text) (v : PyVal) :
+    denoteX (setItem (.aset bs ml) k v) = .attrs (dictSet (denoteBs bs) k (denote v)) := by
+  simp only [setItem]
+  cases hr : replaceFirst k (bindValue v) bs with
+  | some bs' =>
+    obtain ⟨_, _, h3⟩ := replaceFirst_some bs bs' k _ hr
+    simp only [denoteX, h3, denoteX_bindValue]
+  | none =>
+    have hnot := replaceFirst_none bs k _ hr
+    simp only [denoteX]
+    rw [denoteBs_append bs k _ hnot, denoteX_bindValue]
+
+/-- The object a context builds denotes the data the context is expected to read back as (a lone
+    binding is expected as a one-binding set). -/
+theorem denoteX_ctxExpr (c : Ctx) :
+    dataOutOfRange (denoteX (ctxExpr c)) = dataOutOfRange (expected c) := by
+  cases c with
+  | fromDict d => simp only [ctxExpr, fromDict_eq, denoteX_bindValue, denote, expected]
+  | values d => simp only [ctxExpr, valuesCtor_eq, fromDict_eq, denoteX_bindValue, denote, expected]
+  | binding k v =>
+    simp only [ctxExpr, denoteX_bindValue, expected, dataOutOfRange, dataKvsOutOfRange, Bool.or_false]
+  | list xs => simp only [ctxExpr, denoteX, denoteE, expected]
+  | setItem d k v => simp only [ctxExpr, fromDict, denoteX_setItem, denoteBs_bindAll, expected]
+  | setItemOn d ml k v => simp only [ctxExpr, denoteX_setItem, denoteBs_bindAll, expected]
+
+/-- what a readable context builds is readable -/
+theorem ctxExpr_readable (c : Ctx) (h : ctxReadable c = true) : exprReadable (ctxExpr c) = true := by
+  cases c with
+  | fromDict d => simpa [ctxExpr, fromDict_eq] using bindValue_readable (.dict d) h
+  | values d => simpa [ctxExpr, valuesCtor_eq, fromDict_eq] using bindValue_readable (.dict d) h
+  | binding k v =>
+    simp only [ctxReadable, Bool.and_eq_true] at h
+    exact bindValue_readable v h.2
+  | list xs => simpa [ctxExpr, exprReadable, elemReadable, ctxReadable] using h
+  | setItem d k v =>
+    simp only [ctxReadable, Bool.and_eq_true] at h
+    have hs : exprReadable (.aset (bindAll d) (d.length != singleBindingCount)) = true := by
+      have := bindValue_readable (.dict d) h.1.1
+      simpa [bindValue] using this
+    exact (setItem_spec (bindAll d) _ k v hs h.1.2 h.2).1
+  | setItemOn d ml k v =>
+    simp only [ctxReadable, Bool.and_eq_true] at h
+    have hs : exprReadable (.aset (bindAll d) ml) = true := by
+      have := bindValue_readable (.dict d) h.1.1
+      simpa [bindValue, exprReadable] using this
+    exact (setItem_spec (bindAll d) ml k v hs h.1.2 h.2).1
 
 end Nima
